@@ -111,7 +111,7 @@ def key_expectations(ctx, trace):
             ok_unchanged[k] = ok_unchanged.get(k, False) or good
     # bases the library is expected NOT to turn into a primitive: below-minimum ones, P-256 with SHA-512, and ECIES over
     # X25519 (key and parameters exist, hybrid.New* answers "unsupported curve")
-    weak = ("SHA1", "SHA224", "P384_SHA256", "P521_SHA256", "P521_SHA384", "RSA1024", "RSA2047", "_E3", "_E65539", "P256_SHA512",
+    weak = ("SHA1", "SHA224", "P384_SHA256", "P521_SHA256", "P521_SHA384", "RSA1024", "RSA2047", "_E3", "_E17", "_E65539", "_EMAX", "P256_SHA512",
             "ECIES_X25519")
     for (t, b), good in sorted(ok_unchanged.items()):
         is_weak = any(w in b for w in weak)
